@@ -1,5 +1,5 @@
 SPECIFICATION Spec
 CONSTANTS
   Mode = "addr"
-INVARIANTS NoError RolesAtRoundHead AtReturn
+INVARIANT Report
 CHECK_DEADLOCK FALSE
